@@ -144,6 +144,23 @@ CLAIMED = {
             'compiled circular weights taken as given (C01); areas with '
             '1e-9 tolerance; monotonicity for non-negative data not claimed',
             TECH),
+    'C16': ('3/C16',
+            'Unmodified ApertureStats on symbolic data (NaN-extended), '
+            'error (optionally NaN), <=1 masked pixel and symbolic local '
+            'background for a pool of 14 apertures (inside, overhanging '
+            'each edge, no pixel centre inside, off-image, two positions) '
+            'x 3 sum methods on 3x3 (thorough 3x4, 4x4): sum, sum_err, '
+            'sum_aper_area equal the weighted sums over in-image, '
+            'positive-weight, unmasked, finite pixels (NaN iff none); min, '
+            'max, mean, var, std, median, raw moments and centroid equal '
+            'their definitions on the centre-in-aperture pixel set after '
+            'local-background subtraction; off-image/all-masked => NaN. A '
+            'concrete differential family checks the interaction with a '
+            'real SigmaClip over solver-enumerated scenarios.',
+            'compiled weights as given (C01); polynomial identities (var, '
+            'std, sum_err) by normal-form comparison of the radicands; MAD/'
+            'biweight/mode/shape parameters not covered',
+            TECH),
 }
 
 NOT_YET = {}
